@@ -32,6 +32,18 @@ def _sizes(tier):
     return tori + ragged + extra
 
 
+def _big_sizes(tier):
+    """Machines larger than 127 chips on a side (the documented chip
+    co-ordinate range is 0-255); visited with a handful of root offsets."""
+    big = [(132, 12, True), (12, 132, True), (252, 24, True), (24, 252, True),
+           (144, 132, True), (200, 7, False), (9, 255, False),
+           (256, 20, False), (130, 129, False)]
+    if tier == "thorough":
+        big += [(252, 252, True), (240, 132, True), (256, 256, False),
+                (255, 129, False)]
+    return big
+
+
 def _roots(tier, torus):
     r = list(range(12))
     roots = [(x, y) for x in r for y in r]
@@ -45,6 +57,12 @@ def enum_boards(tier, shard, nshards):
     i = 0
     for (w, h, torus) in _sizes(tier):
         for (rx, ry) in _roots(tier, torus):
+            i += 1
+            if i % nshards != shard:
+                continue
+            yield {"w": w, "h": h, "torus": torus, "rx": rx, "ry": ry}
+    for (w, h, torus) in _big_sizes(tier):
+        for (rx, ry) in [(0, 0), (4, 8), (11, 7), (3, 0), (13, 25)]:
             i += 1
             if i % nshards != shard:
                 continue
@@ -110,7 +128,8 @@ def check_boards(case):
                     "local Ethernet chip is not in spinn5_eth_coords",
                     {"chip": [x, y], "eth": list(exp)})
     return {"nontrivial": wraps or (rx % 12, ry % 12) != (0, 0),
-            "classes": ["torus" if torus else "ragged",
+            "classes": ["torus" if torus else "ragged"] +
+                       (["side>127"] if max(w, h) > 127 else []) + [
                         "root0" if (rx % 12, ry % 12) == (0, 0)
                         else "root-offset"] + (["wraps"] if wraps else [])}
 
